@@ -35,6 +35,15 @@ type Case struct {
 	Dst   []int    `json:"dst"`            // per call: 0 nil, 1 dirty larger, 2 dirty smaller, 3 previous result
 }
 
+// rebase returns the offsets relative to the first one.
+func rebase(offsets []uint32) []uint32 {
+	out := make([]uint32, len(offsets))
+	for i, o := range offsets {
+		out[i] = o - offsets[0]
+	}
+	return out
+}
+
 type pair struct{ enc, kind string }
 
 var pairs = []pair{
@@ -317,14 +326,26 @@ func runCase(c Case, o *kit.Obs) *kit.Failure {
 				decoded = i64bytes(f64toI64(out))
 			}
 		case "bytes":
+			// the values may sit anywhere in the buffer (a sliced page hands over the whole
+			// buffer of its parent with the offsets of its own values): on some calls the
+			// first value does not start at 0 and other bytes follow the last one
 			var data []byte
-			offsets := []uint32{0}
+			base := 0
+			if call%3 == 1 && n > 0 {
+				base = 1 + (c.Size+len(vals))%11
+				data = append(data, bytes.Repeat([]byte{0xEE}, base)...)
+			}
+			offsets := []uint32{uint32(base)}
 			for _, v := range vals {
 				data = append(data, v.B...)
 				offsets = append(offsets, uint32(len(data)))
 			}
-			plainIn = append(append([]byte{}, data...), u32bytes(offsets)...)
+			plainIn = append(append([]byte{}, data[base:]...), u32bytes(rebase(offsets))...)
+			if base > 0 {
+				data = append(data, 0xDD, 0xDD, 0xDD)
+			}
 			encoded, err = e.EncodeByteArray(pickDst(dk, len(data)+4*n+16, prevEnc), data, offsets)
+			data = data[base:offsets[len(offsets)-1]]
 			if err == nil {
 				var out []byte
 				var offs []uint32
